@@ -487,7 +487,13 @@ func (vfs *OrefaFS) Mkdir(name string, perm fs.FileMode) error {
 
 	if !parentOk {
 		for !parentOk {
-			dirName, _ = avfs.SplitAbs(vfs, dirName)
+			upper, _ := avfs.SplitAbs(vfs, dirName)
+			if upper == dirName {
+				// nothing exists on the path, not even its root (a volume that does not exist).
+				return &fs.PathError{Op: op, Path: name, Err: vfs.err.NoSuchDir}
+			}
+
+			dirName = upper
 			parent, parentOk = vfs.nodes[dirName]
 		}
 
@@ -551,7 +557,13 @@ func (vfs *OrefaFS) MkdirAll(path string, perm fs.FileMode) error {
 
 		ds = append(ds, dirName)
 
-		dirName, _ = avfs.SplitAbs(vfs, dirName)
+		upper, _ := avfs.SplitAbs(vfs, dirName)
+		if upper == dirName {
+			// nothing exists on the path, not even its root (a volume that does not exist).
+			return &fs.PathError{Op: op, Path: path, Err: vfs.err.NoSuchDir}
+		}
+
+		dirName = upper
 	}
 
 	// ds goes from the deepest to the topmost missing directory : create them from the top.
